@@ -105,6 +105,7 @@ func runNative(nb *nativeBin, in *replayIn, dir string) (*replayOut, error) {
 			if err := json.Unmarshal([]byte(strings.TrimPrefix(ln, "VERIF-REPLAY: ")), out); err != nil {
 				return nil, err
 			}
+			out.Func = canonFunc(out.Func)
 			return out, nil
 		}
 	}
